@@ -172,6 +172,50 @@ def run(chk):
             chk.ob("C19.R3:%s for Option<T>" % tr, "Option<T> captures as the inner capture or nothing", f)
     chk.floor("Capture* for Option<T> impls", n, 3)
 
+    # ---- the attribute -> hook table of the proc-macro crate (macros/src/lib.rs::hooks) ------------------------------------------
+    def hook_table():
+        from . import quotes
+        hb = P.body("emit_macros::hooks")
+        ins = [c for c in hb.calls(normal_only=True) if c.callee.get("name") == "insert" and "HashMap" in (c.callee.get("path") or "")]
+        rows = 0
+        sites = []
+        for c in ins:
+            attr = mir.o_const_value(hb.origin(c.args[1]))
+            clo = hb.origin(c.args[2])
+            while clo[0] == "cast":
+                clo = clo[1]
+            if clo[0] != "agg" or clo[1].get("ak") != "closure" or not isinstance(attr, str):
+                return False, "an entry of the attribute table is not (literal name, closure) (idiom not recognised)", [], c.loc
+            cb = P.body(clo[1]["def"])
+            ca = [x for x in cb.calls(normal_only=True) if x.callee.get("name") == "capture_as"]
+            if not ca:
+                continue   # fmt / key / optional: not capture modes
+            if len(ca) != 1:
+                return False, "the `%s` entry calls capture_as %d times" % (attr, len(ca)), [], cb.span
+            x = ca[0]
+            nm = mir.o_const_value(cb.origin(x.args[0]))
+            if nm != attr:
+                return False, "the `%s` attribute is expanded as `%s`" % (attr, nm), [], x.loc
+            ids = quotes.stream_idents(cb)
+            got = []
+            for a in x.args[3:5]:
+                sid = quotes.operand_stream(cb, a)
+                got.append((ids.get(sid) or [None])[-1])
+            mode = attr[len("as_"):] if attr.startswith("as_") else attr
+            want = ("__private_capture_as_%s" % mode, "__private_capture_anon_as_%s" % mode)
+            if mode == "error":
+                want = ("__private_capture_as_error", "__private_capture_as_error")
+            if tuple(got) != want:
+                return False, ("#[emit::%s] expands to the capture hooks %s; the attribute's mode must select %s (inspecting, anonymous): "
+                               "otherwise a value captured with this attribute is seen downstream through another mode's formatting"
+                               % (attr, got, list(want))), [], x.loc
+            rows += 1
+            sites.append(x.loc)
+        if rows < 6:
+            raise mir.AnchorMissing("capture rows of emit_macros::hooks (found %d)" % rows)
+        return True, "", sites
+    chk.ob("C19.R2:attribute-table", "each #[emit::as_*] attribute expands to the capture hooks of its own mode (inspecting and anonymous flavour)", hook_table)
+
     def macro_props_skip_none():
         b = P.impl_method("emit_core::props::Props", "emit::macro_hooks::__PrivateMacroProps<'a, N>", "for_each")
         # the decision on an entry's value being None must lead back into the loop, not out of it
